@@ -584,12 +584,19 @@ bool Interp::doBinary(const Step& s)
     }
     else e = new dd_edge(W.F[fc]);
     dd_edge beforeA(*W.slots[size_t(a)].e), beforeB(*W.slots[size_t(b)].e);
+    const dd_edge beforeE(*e);      // what the result edge held before the call
     bool threw = false; int code = -1; std::string ename;
     try {
         bop->compute(*pa, *pb, *e);
     } catch (MEDDLY::error& er) {
         threw = true; code = int(er.getCode()); ename = er.getName();
     }
+    if (threw && !(beforeE == *e)) {
+        // a rejected call must leave every edge as it was, the result edge included
+        delete e;
+        return fail("C16.result-edge-changed-by-rejected-call", op + " threw " + ename + " but changed the edge passed as the result");
+    }
+    if (threw && !alias.empty()) R.labels.add("error_with_result_edge_in_use");
     R.labels.add("op." + op);
     if (fa != fc || fb != fc) R.labels.add("cross_forest_op");
     {
